@@ -200,6 +200,21 @@ PROPS = {
                 'trace is validated against the sequential contract; non-trivial = a schedule with at least one '
                 'forced or random preemption',
     },
+    'C17': {
+        'mc_quick': [], 'sim': None,
+        'title': 'Finished builders are fenced off',
+        'units': [('stale', 2500, 30000)],
+        'thread_units': (250, 2500, 8, 0, 0, 0), 'thread_profile': 'straggler',
+        'owned': set(CLAUSE_OWNER) | {'FencedAfterClose', 'FencedNoEffect', 'NoDeadlock'},
+        'nontrivial': lambda st, sc: bool(sc.get('stale')) or any(stp.get('straggler', {}).get('preempt') for stp in sc['steps']),
+        'rule': 'sequential: every method of the builders of ended root / build_file / subbuild activations is '
+                'called later in the same build and after build() returned (must raise RuntimeError, call no user '
+                'function, change nothing); racing: the root function hands its builder to a cooperative straggler '
+                'thread and returns or raises, the owner is preempted at every measured yield point after the '
+                'hand-off; calls that completed are placed before the end of the root function in the trace and '
+                'must therefore be part of the record (next build, clean), fenced ones must be RuntimeError; '
+                'non-trivial = stale calls were made, or a preemption was forced',
+    },
     'C10': {
         'mc_quick': ['MC_quick.cfg'], 'mc_thorough': [('MC_nest.cfg', 1500)],
         'title': 'build_file contract',
